@@ -141,6 +141,13 @@ def gen_package(rng: random.Random, name: str = "pk", *, hostile: bool = False, 
                     bound[n] = pkg.defs[src][n]
             else:
                 # __all__ forms
+                if not all_started and rng.random() < 0.18:
+                    # an explicitly empty __all__: `from m import *` binds nothing although m has public names
+                    lines.append(rng.choice(["__all__ = []", "__all__ = ()", "__all__: list[str] = []"]))
+                    explicit_all = []
+                    all_started = True
+                    bound["__all__"] = VALUE
+                    continue
                 cands = [n for n in bound if n != "__all__"]
                 if not cands:
                     continue
